@@ -206,7 +206,7 @@ impl PageTree {
             let node = resolve.get(kid)?;
             match *node {
                 PagesNode::Tree(ref tree) => {
-                    if (pos .. pos + tree.count).contains(&page_nr) {
+                    if page_nr - pos < tree.count {
                         return tree.page_limited(resolve, page_nr - pos, depth - 1);
                     }
                     pos += tree.count;
